@@ -5,6 +5,7 @@ package main
 import (
 	"fmt"
 	"go/types"
+	"os"
 	"sort"
 	"strings"
 
@@ -20,6 +21,8 @@ type SpecParam struct {
 }
 
 type SpecDef struct {
+	Raw     string // verbatim SMT-LIB definition (quantified specs)
+	RawDeps []string
 	Name    string
 	Fn      *ssa.Function
 	Params  []SpecParam
@@ -73,10 +76,62 @@ func (p *Prog) specSig(fn *ssa.Function) *SpecDef {
 	return sd
 }
 
+// loadRawSpecs reads spec functions given directly in SMT-LIB.
+func (p *Prog) loadRawSpecs(path string) error {
+	data, err := os.ReadFile(path)
+	if err != nil {
+		return err
+	}
+	var cur *SpecDef
+	var names []string
+	for _, ln := range strings.Split(string(data), "\n") {
+		if strings.HasPrefix(ln, ";; spec ") {
+			f := strings.Fields(strings.TrimPrefix(ln, ";; spec "))
+			cur = &SpecDef{Name: f[0], done: true}
+			rest := strings.Join(f[1:], " ")
+			parts := strings.SplitN(rest, "->", 2)
+			cur.Ret = mkSort(strings.TrimSpace(parts[1]))
+			for _, pm := range strings.Split(parts[0], ")") {
+				pm = strings.TrimSpace(strings.TrimPrefix(strings.TrimSpace(pm), "("))
+				if pm == "" {
+					continue
+				}
+				ff := strings.SplitN(pm, " ", 2)
+				s := mkSort(strings.TrimSpace(ff[1]))
+				cur.Params = append(cur.Params, SpecParam{Name: ff[0], S: s})
+				cur.Formals = append(cur.Formals, Const(cur.Name+"$"+ff[0], s))
+			}
+			p.specs[cur.Name] = cur
+			p.rawOrder = append(p.rawOrder, cur.Name)
+			names = append(names, cur.Name)
+			continue
+		}
+		if cur != nil {
+			if strings.HasPrefix(strings.TrimSpace(ln), ";") {
+				continue
+			}
+			cur.Raw += ln + "\n"
+		}
+	}
+	// dependencies among raw specs (textual)
+	for _, n := range names {
+		sd := p.specs[n]
+		for _, m := range names {
+			if m != n && strings.Contains(sd.Raw, "("+m+" ") {
+				sd.RawDeps = append(sd.RawDeps, m)
+			}
+		}
+	}
+	return nil
+}
+
 func (p *Prog) loadSpecSigs() {
 	for _, n := range p.fnames {
 		f := p.funcs[n]
 		if p.isSpecFunc(f) {
+			if sd, ok := p.specs[f.Name()]; ok && sd.Raw != "" {
+				continue // the raw SMT definition wins; the Go twin is for native replay
+			}
 			p.specSig(f)
 		}
 	}
@@ -85,7 +140,7 @@ func (p *Prog) loadSpecSigs() {
 // ensureSpec translates the body of a spec function (lazily).
 func (p *Prog) ensureSpec(name string) {
 	sd := p.specs[name]
-	if sd == nil || sd.done || sd.busy {
+	if sd == nil || sd.done || sd.busy || sd.Raw != "" {
 		return
 	}
 	sd.busy = true
@@ -149,9 +204,17 @@ func (p *Prog) ensureSpec(name string) {
 func (p *Prog) specDefsFor(roots map[string]bool) (string, []string) {
 	// closure
 	need := map[string]bool{}
+	rawNeed := map[string]bool{}
 	var visit func(n string)
 	visit = func(n string) {
-		if need[n] {
+		if need[n] || rawNeed[n] {
+			return
+		}
+		if sd := p.specs[n]; sd.Raw != "" {
+			rawNeed[n] = true
+			for _, d := range sd.RawDeps {
+				visit(d)
+			}
 			return
 		}
 		need[n] = true
@@ -162,6 +225,12 @@ func (p *Prog) specDefsFor(roots map[string]bool) (string, []string) {
 	}
 	for r := range roots {
 		visit(r)
+	}
+	var rawText strings.Builder
+	for _, n := range p.rawOrder {
+		if rawNeed[n] {
+			rawText.WriteString(p.specs[n].Raw)
+		}
 	}
 	var names []string
 	for n := range need {
@@ -215,6 +284,7 @@ func (p *Prog) specDefsFor(roots map[string]bool) (string, []string) {
 		}
 	}
 	var sb strings.Builder
+	sb.WriteString(rawText.String())
 	var errs []string
 	sig := func(sd *SpecDef) string {
 		var ps []string
